@@ -27,8 +27,8 @@ from ..core import Sub, fail, enc, jkey, lit, scale
 from .. import heapfp
 
 BOUNDS = {
-    'quick': 'operation alphabet: parse(f) for 30 residue-leaving formulas, set_variable x 2 values, set_function x 2 bodies, '
-             'on/off of a cell listener, the host changing every cell and range value (37 operations); all histories of length <= 2 x 25 probes, debug off and on, each '
+    'quick': 'operation alphabet: parse(f) for 32 residue-leaving formulas, set_variable x 2 values, set_function x 2 bodies, '
+             'on/off of a cell listener, the host changing every cell and range value (39 operations); all histories of length <= 2 x 27 probes, debug off and on, each '
              'history in a pristine process (fork server) against solo outcomes from pristine processes; closure '
              'search over heap fingerprints to a fixpoint (cap depth 5); repetition ladder 1,2,4,...,64 per formula for live '
              'traceback/frame counts; host-list immutability for every documented function x arity <= 2 x list-valued '
@@ -109,8 +109,10 @@ FORMULAS = ['SUM(1,2)+va', 'va*2', '1/0', 'nosuchvar+1', 'SUM(1/0,1)', 'MAX(NA()
             'B2-A1+SUM(A1:B2)', 'SUM(B2:A1)+SUM($C$3:A2)', 'B9&"|"&ISBLANK(D8)', 'A1+C1',
             'IFERROR(SUM(1/0),5)&ISERROR(MAX(NA()))&IF(ISERROR(SUM(1/0)),"n/a",1)',
             'IFERROR(FNOARG(1),5)&ISERROR(FNOARG(2))', 'FNOARG(3)+1',
+            # criteria of different kinds that are equal in the host language: what one evaluation compiled must not serve the other
+            'COUNTIF({1,TRUE,1,"1"},TRUE)&"|"&SUMIF({0,FALSE,0},FALSE,{1,2,4})', 'COUNTIF({1,TRUE,1,"1"},2/2)&"|"&SUMIF({0,FALSE,0},1.5-1.5,{1,2,4})',
             'IFERROR(FBOOM(2),A1)', 'CONCATENATE(1/0,"x")', 'A1:B2', 'A1*B2+nosuchvar', 'SUM(A1:B2)+B2+(']
-NPROBE = 25      # the first 25 are also probes
+NPROBE = 27      # the first 27 are also probes
 NEEDS_ZYGOTE = True
 
 
@@ -309,7 +311,7 @@ class Histories(Sub):
             rest = depth - len(prefix)
             for tail in itertools.product(OPS, repeat=rest):
                 hist = prefix + list(tail)
-                if any(op[0] == 'parse' and op[1] in (2, 3, 4, 5, 6, 7, 8, 9, 10, 11, 21, 22, 23, 24, 25, 26, 29) for op in hist):
+                if any(op[0] == 'parse' and op[1] in (2, 3, 4, 5, 6, 7, 8, 9, 10, 11, 21, 22, 23, 24, 25, 26, 27, 28, 31) for op in hist):
                     env.nt()
                 env.note('len%d' % len(hist))
                 env.cov['traces_validated_against_impl'] = env.cov.get('traces_validated_against_impl', 0) + 1
